@@ -357,7 +357,7 @@ def run_check(mod, tier, seed):
     )
     os.makedirs(os.path.join(ROOT, "evidence"), exist_ok=True)
     with open(os.path.join(ROOT, "evidence", pid + ".json"), "w") as f:
-        json.dump(ev, f, indent=1, sort_keys=True, default=repr)
+        json.dump(_strict_json(ev), f, indent=1, sort_keys=True, default=repr, allow_nan=False)
     for l in lines:
         print(l)
     for v in violations:
@@ -391,6 +391,17 @@ def run_replay(mod, path):
         print("model/implementation disagreement persists:", mism, cerrs[:1])
         print("VIOLATION property=%s replay=%s no-failing-input-found" % (pid, path)); return 1
     print("replay: no longer fails"); return 0
+
+
+def _strict_json(x):
+    """evidence files are strict JSON: non-finite floats (infinite energies, NaN) are written as strings"""
+    if isinstance(x, float) and (x != x or x in (float("inf"), float("-inf"))):
+        return "nan" if x != x else ("inf" if x > 0 else "-inf")
+    if isinstance(x, dict):
+        return {str(k): _strict_json(v) for k, v in x.items()}
+    if isinstance(x, (list, tuple)):
+        return [_strict_json(v) for v in x]
+    return x
 
 
 def main(argv):
